@@ -310,4 +310,19 @@ theorem ProgSafe_append : ∀ (p q : List Op) (a : AState), ProgSafe a (p ++ q) 
     obtain ⟨h1, h2⟩ := ih q (step a o) h.2
     exact ⟨⟨h.1, h1⟩, h2⟩
 
+theorem absrun_append (a : AState) (p q : List Op) : RBAbs.run a (p ++ q) = RBAbs.run (RBAbs.run a p) q := by
+  unfold RBAbs.run; rw [List.foldl_append]
+
 end Tickit.RBAbs
+
+namespace Tickit.RB
+open Tickit.RBAbs
+
+/-- Every operation except `restore` is unconditionally safe. -/
+theorem opSafe_of_not_restore (a : AState) (o : Op) (h : o ≠ .restore) : OpSafe a o := by
+  cases o <;> first | trivial | exact absurd rfl h
+
+theorem run_append (rb : RB) (p q : List Op) : RB.run rb (p ++ q) = RB.run (RB.run rb p) q := by
+  unfold RB.run; rw [List.foldl_append]
+
+end Tickit.RB
